@@ -207,7 +207,8 @@ class Lib:
             n = n.value
         if not isinstance(n, ast.Name):
             return None
-        if st is not None and n.id in st.locals:
+        if st is not None and (n.id in st.locals or (
+                st.spec and (n.id in st.ghost or n.id in ("result", "out")))):
             return None
         base = imports.get(n.id, n.id)
         parts.append(base)
@@ -922,6 +923,17 @@ class Lib:
         saved_locals = st.locals
         saved_ghost_result = st.ghost.get("result")
         saved_old = st.old
+        caller = eng.cur
+        if caller is not None and fc.method_name in caller.at_call:
+            merged = dict(saved_locals)
+            merged.update(env)
+            st.locals = merged
+            try:
+                for k, cl in enumerate(caller.at_call[fc.method_name]):
+                    eng.oblige(st, f"at-call({fc.method_name})", line,
+                               eng.spec_bool(st, cl), cl.props, label=str(k))
+            finally:
+                st.locals = saved_locals
         st.locals = dict(env)
         try:
             for k, cl in enumerate(fc.requires):
@@ -929,6 +941,16 @@ class Lib:
                            eng.spec_bool(st, cl), cl.props or None,
                            label=str(k))
                 st.assume(eng.spec_bool(st, cl))
+            for m in fc.modifies:
+                if not m.startswith("ghost:") and m != "*":
+                    k_ = m.split("@")[0]
+                    if not any(h == k_ or h.startswith(k_ + "#")
+                               for h in st.heap):
+                        shp = eng._shape_of_key(k_)
+                        if shp is None:
+                            raise E.Unsupported(f"unknown field {k_} in "
+                                                f"modifies of {fc.key}")
+                        eng._materialise(st, k_, shp)
             pre = st.snapshot()
             # frame
             heapkeys = []
@@ -958,6 +980,7 @@ class Lib:
                                           "ret_" + fc.method_name)
                           if fc.returns else VNone())
                 st.ghost["result"] = result
+                st.locals["result"] = result
                 for cl in fc.ensures:
                     st.assume(eng.spec_bool(st, cl))
                 return result
@@ -1364,6 +1387,14 @@ class Lib:
         u = eng.coerce(st, eng.eval(st, node.args[0]), "U")
         p = eng.eval(st, node.args[1]).t
         return VInt(st.ghost["YC"][u][p])
+
+    def sp_old_next_ref(self, st, node):
+        return VInt(st.old["next_ref"])
+
+    def sp_fresh(self, st, node):
+        eng = self.eng
+        v = eng.eval(st, node.args[0])
+        return VBool(v.t >= st.old["next_ref"])
 
     def sp_failed(self, st, node):
         return VBool(bool(st.ghost.get("__failed")))
